@@ -1020,9 +1020,54 @@ func (c *Conn) closeWithError(err error) error {
 	return nil
 }
 
+// dialCompleted is called by the poller when the descriptor of a pending
+// dial becomes writable: it finds out how the connect has ended and reports
+// it. The callback is taken under the mutex, so that it runs only once even
+// if the connection is being closed (dial timeout, Stop) at the same time:
+// whoever closes a connection with a pending callback reports the failure.
+//
+//go:norace
+func (c *Conn) dialCompleted() {
+	errno, err := syscall.GetsockoptInt(c.fd, syscall.SOL_SOCKET, syscall.SO_ERROR)
+	if err == nil && errno != 0 {
+		err = syscall.Errno(errno)
+	}
+	if err != nil {
+		_ = c.closeWithError(err)
+		return
+	}
+
+	c.mux.Lock()
+	if c.closed {
+		c.mux.Unlock()
+		return
+	}
+	onConnected := c.onConnected
+	c.onConnected = nil
+	// reset to read-only before the callback, so that
+	// data written in it can set the writing event again.
+	if len(c.writeList) == 0 {
+		c.resetRead()
+	}
+	c.mux.Unlock()
+	if onConnected != nil {
+		onConnected(c, nil)
+	}
+}
+
 //go:norace
 func (c *Conn) closeWithErrorWithoutLock(err error) error {
 	c.closeErr = err
+
+	if onConnected := c.onConnected; onConnected != nil {
+		// the dial has not completed: this is its outcome.
+		c.onConnected = nil
+		if err == nil {
+			onConnected(c, net.ErrClosed)
+		} else {
+			onConnected(c, err)
+		}
+	}
 
 	if c.writeList != nil {
 		for _, t := range c.writeList {
